@@ -21,6 +21,8 @@ pub enum BOp {
     Restart,
     Full,
     Incr,
+    /// incremental whose parent is the last FULL backup (differential layout: siblings)
+    IncrFromFull,
 }
 
 fn alphabet() -> Vec<BOp> {
@@ -33,6 +35,7 @@ fn alphabet() -> Vec<BOp> {
         BOp::Restart,
         BOp::Full,
         BOp::Incr,
+        BOp::IncrFromFull,
     ]
 }
 
@@ -43,6 +46,7 @@ fn short(o: &BOp) -> String {
         BOp::Restart => "RESTART".into(),
         BOp::Full => "FULL".into(),
         BOp::Incr => "INCR".into(),
+        BOp::IncrFromFull => "INCR(parent=last FULL)".into(),
     }
 }
 
@@ -108,6 +112,7 @@ pub fn run_history(hist: &[BOp], scratch: &Scratch, st: &mut Stats) {
     let mgr = BackupManager::new(&bdir, &data).expect("backup manager");
     let mut taken: Vec<Taken> = Vec::new();
     let mut last: Option<(kyrodb_engine::backup::BackupMetadata, bool)> = None;
+    let mut last_full: Option<kyrodb_engine::backup::BackupMetadata> = None;
     let mut snap_since = false;
     for op in hist {
         advance(2);
@@ -136,8 +141,19 @@ pub fn run_history(hist: &[BOp], scratch: &Scratch, st: &mut Stats) {
                     st.backups += 1;
                     let id = meta.id;
                     taken.push(Taken { id: id.to_string(), restore: Box::new(move |r: &RestoreManager| r.restore_from_backup(id)), ts: meta.timestamp, model: model.clone(), kind: "full", compaction_since_parent: false });
+                    last_full = Some(meta.clone());
                     last = Some((meta, true));
                     snap_since = false;
+                }
+            }
+            BOp::IncrFromFull => {
+                if let Some(parent) = &last_full {
+                    if let Ok(meta) = mgr.create_incremental_backup(parent.id, "diff".into()) {
+                        st.backups += 1;
+                        let id = meta.id;
+                        taken.push(Taken { id: id.to_string(), restore: Box::new(move |r: &RestoreManager| r.restore_from_backup(id)), ts: meta.timestamp, model: model.clone(), kind: "incremental-sibling", compaction_since_parent: snap_since });
+                        last = Some((meta, false));
+                    }
                 }
             }
             BOp::Incr => {
@@ -482,7 +498,7 @@ fn part4(tier: &str, wi: usize, wn: usize, scratch: &Scratch, st: &mut Stats) {
 }
 
 pub fn worker(wi: usize, wn: usize, tier: &str) {
-    let depth: usize = std::env::var("C12_DEPTH").ok().and_then(|s| s.parse().ok()).unwrap_or(if tier == "thorough" { 5 } else { 4 });
+    let depth: usize = std::env::var("C12_DEPTH").ok().and_then(|s| s.parse().ok()).unwrap_or(if tier == "thorough" { 6 } else { 5 });
     let scratch = Scratch::new(&format!("c12w{wi}"));
     sc::ctl(sc::CMD_CLOCK_MODE, 1, 0);
     sc::set_root(&scratch.path.to_string_lossy());
@@ -561,13 +577,13 @@ pub fn run(tier: &str, replay: Option<&str>) -> i32 {
         }
         rep.report_bag(&r["violations"]);
     }
-    let depth: usize = std::env::var("C12_DEPTH").ok().and_then(|s| s.parse().ok()).unwrap_or(if tier == "thorough" { 5 } else { 4 });
+    let depth: usize = std::env::var("C12_DEPTH").ok().and_then(|s| s.parse().ok()).unwrap_or(if tier == "thorough" { 6 } else { 5 });
     ev.set("states", states.len() as u64);
     ev.set("transitions", tot["restores"] + tot["pitr"] + tot["tamper"] + tot["clear"] + tot["retention"]);
     ev.set("traces_validated_against_impl", tot["histories"]);
     ev.set("evaluations", tot["histories"] + tot["tamper"] + tot["clear"] + tot["retention"]);
     ev.set("distinct_nontrivial", tot["incr_comp"] + tot["tamper_rejected"] + tot["retention_deleting"]);
-    ev.set("rule", format!("(1) all histories of length {depth} over {{insert 1, insert 2, overwrite 1, delete 1, SNAP, RESTART, FULL backup, INCREMENTAL backup (parent = latest)}} that contain a full backup, rotation threshold 1 byte so snapshots compact segments between backups, logical clock +2 s per step with virtual mtimes; every backup taken is restored by id AND by point-in-time (target = its timestamp) into an empty directory, recovered, and must equal the reference map as of that backup; (2) one full+incremental chain: every byte of every archive and metadata file x {{xor 0x01, 0xFF (thorough: +xor 0x80, 0x00)}} and truncations, restored over a target holding sentinel files with clearing allowed: rejected => target byte-identical, accepted => collection as expected; (3) target {{empty, non-empty}} x allow_clear x BACKUP_ALLOW_CLEAR {{unset,true,TRUE,1,false,yes}} x {{by id, point-in-time}}: cleared only with confirmation; (4) every timeline of 2..{} backups with ages on {{1/2 h, 2 h, 26 h, 8 d, 40 d}}, every parent assignment, 32 policies, fixed clock: the retained set is closed under parent_id and nothing younger than min_age is deleted. non-trivial = incrementals taken after an intervening snapshot + rejected tamperings + prunes that delete something", if tier == "thorough" { 4 } else { 3 }));
+    ev.set("rule", format!("(1) all histories of length {depth} over {{insert 1, insert 2, overwrite 1, delete 1, SNAP, RESTART, FULL backup, INCREMENTAL backup (parent = latest), INCREMENTAL backup (parent = last FULL: siblings)}} that contain a full backup, rotation threshold 1 byte so snapshots compact segments between backups, logical clock +2 s per step with virtual mtimes; every backup taken is restored by id AND by point-in-time (target = its timestamp) into an empty directory, recovered, and must equal the reference map as of that backup; (2) one full+incremental chain: every byte of every archive and metadata file x {{xor 0x01, 0xFF (thorough: +xor 0x80, 0x00)}} and truncations, restored over a target holding sentinel files with clearing allowed: rejected => target byte-identical, accepted => collection as expected; (3) target {{empty, non-empty}} x allow_clear x BACKUP_ALLOW_CLEAR {{unset,true,TRUE,1,false,yes}} x {{by id, point-in-time}}: cleared only with confirmation; (4) every timeline of 2..{} backups with ages on {{1/2 h, 2 h, 26 h, 8 d, 40 d}}, every parent assignment, 32 policies, fixed clock: the retained set is closed under parent_id and nothing younger than min_age is deleted. non-trivial = incrementals taken after an intervening snapshot + rejected tamperings + prunes that delete something", if tier == "thorough" { 4 } else { 3 }));
     ev.set("samples", json!([{"history": ["I(1)", "FULL", "I(2)", "SNAP", "INCR"]}, {"tamper": "archive byte 17 -> 0xff"}, {"retention": {"ages_s": [93600, 7200], "parents": [null, 0]}}]));
     ev.set("exhaustive", true);
     ev.set("backups_taken", tot["backups"]);
